@@ -14,7 +14,7 @@ BINARY = ["add", "sub", "mul", "divs", "maxs"]
 ALIAS = ["reshape_rt", "transpose_rt", "getall", "ravel_rt", "ident_add0", "expand_squeeze", "swap_rt"]
 SPARSE = ["gather", "rev", "slice_pad", "take1"]
 REDUCE = ["sum_b", "mean_b", "cumsum", "dot_b"]
-CONTROL = ["if_pos", "while_half", "rec_pow", "closure_scale"]
+CONTROL = ["if_pos", "while_half", "rec_pow", "closure_scale", "if_truthy", "while_truthy"]
 USER = ["log_scale", "log_mul"]
 
 
@@ -158,6 +158,28 @@ def interpret_values(prog, x, xp, user=None, on_op=None, blog=None):
                 r = xp.sin(a) + a
             else:
                 r = xp.cos(a) - a
+        elif name == "if_truthy":
+            # truthiness of a traced scalar itself (Box.__bool__), zero and non-zero
+            z = xp.sum(a) * 0.0
+            nz = xp.sum(a * a) + 1.0
+            if z:
+                r = xp.cos(a) * 3.0
+            elif nz:
+                r = xp.sin(a) * 0.5 + a
+            else:
+                r = a * 7.0
+            if blog is not None:
+                blog.append((bool(z), bool(nz)))
+        elif name == "while_truthy":
+            r = a
+            k = xp.sum(a) * 0.0 + 3.0
+            it = 0
+            while k and it < 5:
+                r = r * 0.9 + 0.05
+                k = k - 1.0
+                it += 1
+            if blog is not None:
+                blog.append(it)
         elif name == "while_half":
             r = a
             it = 0
